@@ -526,3 +526,8 @@ def main(argv):
     except Infra as e:
         sys.stderr.write("INFRASTRUCTURE ERROR: %s\n" % e)
         return 2
+    except Exception:
+        # a defect of this machinery, never a verdict about the library: exit 2, not 1
+        import traceback
+        sys.stderr.write("INFRASTRUCTURE ERROR (unexpected exception in the check driver):\n" + traceback.format_exc())
+        return 2
